@@ -1,7 +1,8 @@
 (* C14 — Immutable data can never be modified.
    Only statements, [exact]s and [Print Assumptions] live here.
 
-   Model : Model/Mutability.v  get_mutability and its consumers Stmt::Assign / Expr::Ref
+   Model : Model/Mutability.v  [get_mutability fix pk e a d] and its consumers Stmt::Assign / Expr::Ref
+           (fix = false: globals.rs as it is; fix = true: the proposed `through_pointer` repair)
    Spec  : Spec/MutSpec.v      [place pk e] in {Mut, Immut, Temp}: type-directed place mutability
    [pk] is the typing oracle (pointer kind of an expression's type). *)
 From Capy Require Import Common.Util Model.Mutability Spec.MutSpec Proofs.MutabilityProofs.
@@ -9,9 +10,9 @@ From Capy Require Import Common.Util Model.Mutability Spec.MutSpec Proofs.Mutabi
 (* Full-strength statements: for every consistently typed access path, an accepted
    assignment never targets immutable data, and a write to mutable data is accepted. *)
 Definition C14_full_sound : Prop := forall pk e,
-  typed pk e = true -> assign_accepted pk e = true -> place pk e <> Immut.
+  typed pk e = true -> assign_accepted false pk e = true -> place pk e <> Immut.
 Definition C14_full_complete : Prop := forall pk e,
-  typed pk e = true -> place pk e = Mut -> assign_accepted pk e = true.
+  typed pk e = true -> place pk e = Mut -> assign_accepted false pk e = true.
 
 (* FALSE of the code as it is: `x :: 5; p := get(^x); p^ = 10` is accepted. *)
 Theorem C14_full_sound_refuted : ~ C14_full_sound.
@@ -19,21 +20,21 @@ Proof. exact full_sound_refuted. Qed.
 Print Assumptions C14_full_sound_refuted.
 
 Theorem C14_witness_call_result_deref :
-  typed imm_pk call_path = true /\ assign_accepted imm_pk call_path = true
+  typed imm_pk call_path = true /\ assign_accepted false imm_pk call_path = true
   /\ place imm_pk call_path = Immut /\ suspect imm_pk call_path false = true.
 Proof. exact call_witness. Qed.
 Print Assumptions C14_witness_call_result_deref.
 
 (* `x :: 5; arr := .[^x]; arr[0]^ = 10` is accepted. *)
 Theorem C14_witness_index_then_deref :
-  typed index_pk index_path = true /\ assign_accepted index_pk index_path = true
+  typed index_pk index_path = true /\ assign_accepted false index_pk index_path = true
   /\ place index_pk index_path = Immut /\ suspect index_pk index_path false = true.
 Proof. exact index_witness. Qed.
 Print Assumptions C14_witness_index_then_deref.
 
 (* `x :: 5; q := ^x; p := ^mut q; p^^ = 10` is accepted. *)
 Theorem C14_witness_double_deref :
-  typed deref2_pk deref2_path = true /\ assign_accepted deref2_pk deref2_path = true
+  typed deref2_pk deref2_path = true /\ assign_accepted false deref2_pk deref2_path = true
   /\ place deref2_pk deref2_path = Immut /\ suspect deref2_pk deref2_path false = true.
 Proof. exact deref2_witness. Qed.
 Print Assumptions C14_witness_double_deref.
@@ -49,36 +50,68 @@ Print Assumptions C14_full_complete_refuted.
    globals and other expressions of type `^mut` under deref) the checks are sound and
    complete, for EVERY typing oracle. *)
 Theorem C14_assign_sound_except_known : forall pk e,
-  suspect pk e false = false -> assign_accepted pk e = true -> place pk e <> Immut.
+  suspect pk e false = false -> assign_accepted false pk e = true -> place pk e <> Immut.
 Proof. exact assign_sound. Qed.
 Print Assumptions C14_assign_sound_except_known.
 
 Theorem C14_assign_complete_except_known : forall pk e,
-  suspect pk e false = false -> place pk e = Mut -> assign_accepted pk e = true.
+  suspect pk e false = false -> place pk e = Mut -> assign_accepted false pk e = true.
 Proof. exact assign_complete. Qed.
 Print Assumptions C14_assign_complete_except_known.
 
 Theorem C14_ref_mut_sound_except_known : forall pk e,
-  suspect pk e false = false -> ref_mut_accepted pk e = true -> place pk e <> Immut.
+  suspect pk e false = false -> ref_mut_accepted false pk e = true -> place pk e <> Immut.
 Proof. exact ref_mut_sound. Qed.
 Print Assumptions C14_ref_mut_sound_except_known.
 
 Theorem C14_ref_mut_complete_except_known : forall pk e,
-  suspect pk e false = false -> place pk e = Mut -> ref_mut_accepted pk e = true.
+  suspect pk e false = false -> place pk e = Mut -> ref_mut_accepted false pk e = true.
 Proof. exact ref_mut_complete. Qed.
 Print Assumptions C14_ref_mut_complete_except_known.
 
 (* Under the deref flag the code's answer is exactly "the pointer type is ^mut". *)
 Theorem C14_deref_is_type_directed : forall pk e a,
   suspect pk e true = false ->
-  (is_mutable (get_mutability pk e a true) = true <-> pk e = Some true).
+  (is_mutable (get_mutability false pk e a true) = true <-> pk e = Some true).
 Proof. exact deref_type_directed. Qed.
 Print Assumptions C14_deref_is_type_directed.
+
+(* ---- the repaired variant ([get_mutability true]: `through_pointer`, C14-fix.diff) --------
+   FULL soundness, no exclusion, for every typing oracle and every access path: an accepted
+   assignment / `^mut` never targets immutable data. *)
+Theorem C14_fixed_full_sound : forall pk e,
+  assign_accepted true pk e = true -> place pk e <> Immut.
+Proof. exact fixed_assign_sound. Qed.
+Print Assumptions C14_fixed_full_sound.
+
+Theorem C14_fixed_ref_mut_full_sound : forall pk e,
+  ref_mut_accepted true pk e = true -> place pk e <> Immut.
+Proof. exact fixed_ref_mut_sound. Qed.
+Print Assumptions C14_fixed_ref_mut_full_sound.
+
+(* The repair changes nothing outside the suspect class, so completeness carries over
+   (the completeness findings C14-5 are not addressed by the repair). *)
+Theorem C14_fixed_assign_complete_except_known : forall pk e,
+  suspect pk e false = false -> place pk e = Mut -> assign_accepted true pk e = true.
+Proof. exact fixed_assign_complete. Qed.
+Print Assumptions C14_fixed_assign_complete_except_known.
+
+Theorem C14_fixed_ref_mut_complete_except_known : forall pk e,
+  suspect pk e false = false -> place pk e = Mut -> ref_mut_accepted true pk e = true.
+Proof. exact fixed_ref_mut_complete. Qed.
+Print Assumptions C14_fixed_ref_mut_complete_except_known.
+
+Theorem C14_fixed_rejects_witnesses :
+  assign_accepted true imm_pk call_path = false
+  /\ assign_accepted true index_pk index_path = false
+  /\ assign_accepted true deref2_pk deref2_path = false.
+Proof. exact fixed_rejects_witnesses. Qed.
+Print Assumptions C14_fixed_rejects_witnesses.
 
 (* Non-vacuity: `s.r.v = 1` through r : ^mut T (accepted, Mut) and r : ^T (rejected, Immut). *)
 Example C14_example :
   suspect (field_pk true) field_path false = false
-  /\ assign_accepted (field_pk true) field_path = true /\ place (field_pk true) field_path = Mut
+  /\ assign_accepted false (field_pk true) field_path = true /\ place (field_pk true) field_path = Mut
   /\ suspect (field_pk false) field_path false = false
-  /\ assign_accepted (field_pk false) field_path = false /\ place (field_pk false) field_path = Immut.
+  /\ assign_accepted false (field_pk false) field_path = false /\ place (field_pk false) field_path = Immut.
 Proof. exact example_ok. Qed.
